@@ -1,5 +1,5 @@
 """pypyr step that loads yaml file into context."""
-from collections.abc import Mapping
+from collections.abc import Mapping, Sized
 import logging
 
 import ruamel.yaml as yaml
@@ -86,5 +86,6 @@ def run_step(context):
         context.update(payload)
 
     logger.info("yaml file written into pypyr context. Count: %s",
-                len(payload))
+                # a scalar at the top level (number, bool, null) has no len
+                len(payload) if isinstance(payload, Sized) else 1)
     logger.debug("done")
